@@ -39,6 +39,8 @@ type Monitor struct {
 	Assumptions []string
 	// Race: build and run the worker with -race for the shards whose case id has prefix "race/".
 	Race bool
+	// MemLimitMB caps the address space of the (non-race) worker processes (RLIMIT_AS); 0 = no cap.
+	MemLimitMB int
 }
 
 var registry = map[string]*Monitor{}
